@@ -361,6 +361,29 @@ func (cr *checkRun) judge(start time.Time, stale []string) int {
 		sort.Strings(missing)
 	}
 	missing = cr.pairRenamed(missing, &violations, &violationLines, &undecided)
+	// a function whose obligations discharge on the baseline tree can no longer be brought
+	// into verification-condition form (construct outside the subset, contract that no longer
+	// matches the code): its obligations are not decided any more, which is reported
+	var errKeys []string
+	for k := range cr.encErr {
+		errKeys = append(errKeys, k)
+	}
+	sort.Strings(errKeys)
+	for _, k := range errKeys {
+		had := false
+		for b := range base {
+			if strings.HasPrefix(b, k+"#") {
+				had = true
+			}
+		}
+		if !had || strings.HasPrefix(cr.encErr[k], "STALE") {
+			continue
+		}
+		o := &Obl{Name: k + "#encode", Kind: "encode", Func: k, Text: "verification conditions of " + k + " can be generated", Props: []string{p}}
+		rp := cr.writeReplay(o, SolveResult{Status: "error", Output: cr.encErr[k]}, nil, "the function no longer encodes: "+cr.encErr[k])
+		violations = append(violations, o.Name)
+		violationLines = append(violationLines, fmt.Sprintf("VIOLATION property=%s replay=%s obligation=%s no-failing-input-found", p, rp, o.Name))
+	}
 	// known findings: replay their witnesses
 	var knownLines []string
 	var knownNotes []string
